@@ -339,6 +339,68 @@ func (c *Ctx) selectionComplete(only ...string) {
 	}
 }
 
+// probeIndexCoversPool: a strategy that walks the pool from a client's slot ((h+i) mod n for
+// i = 0..n-1) visits every slot only if h+i does not wrap: computed at the width of a full-range hash
+// the sum overflows for clients whose hash lies in the top n-1 values, and for pool sizes that do not
+// divide 2^32 the walk then skips slots — such a client is answered "no backend" while an unvisited
+// backend is healthy.  Every modulo whose dividend is a sum must not add to an unreduced hash value.
+func (c *Ctx) probeIndexCoversPool() {
+	p := c.P
+	isHash := func(v ssa.Value) bool {
+		for i := 0; i < 6; i++ {
+			switch x := v.(type) {
+			case *ssa.Convert:
+				v = x.X
+				continue
+			case *ssa.ChangeType:
+				v = x.X
+				continue
+			case *ssa.Call:
+				n := CalleeName(x)
+				return strings.HasSuffix(n, ".Sum32") || strings.HasSuffix(n, ".Sum64") || strings.HasSuffix(n, "ChecksumIEEE")
+			}
+			break
+		}
+		return false
+	}
+	n := 0
+	for _, nt := range c.strategyImpls() {
+		fn := p.Fn("internal/loadbalancer", nt.Obj().Name(), "NextBackend")
+		if fn == nil {
+			continue
+		}
+		construct := "loadbalancer.(*" + nt.Obj().Name() + ").NextBackend"
+		n++
+		var bad []string
+		fns := append([]*ssa.Function{fn}, fn.AnonFuncs...)
+		for _, f := range fns {
+			instrsOf(f, func(in ssa.Instruction) {
+				rem, ok := in.(*ssa.BinOp)
+				if !ok || rem.Op != token.REM {
+					return
+				}
+				sum, ok := rem.X.(*ssa.BinOp)
+				if !ok || sum.Op != token.ADD {
+					return
+				}
+				b, isBasic := sum.Type().Underlying().(*types.Basic)
+				if !isBasic || b.Info()&types.IsUnsigned == 0 {
+					return
+				}
+				if isHash(sum.X) || isHash(sum.Y) {
+					bad = append(bad, fmt.Sprintf("%s: (hash + offset) %% n is computed at the hash's own width: for hash values within n-1 of the maximum the sum wraps before the modulo, the walk over the pool then skips slots when n does not divide 2^%d, and the client is answered 'no backend' although an unvisited backend is healthy (reduce the hash first: (hash %% n + offset) %% n)", p.InstrPos(rem), 8*int(types.SizesFor("gc", "amd64").Sizeof(b))))
+				}
+			})
+		}
+		if len(bad) == 0 {
+			c.Pass("selection-complete", construct+"/index-arithmetic", p.Pos(fn.Pos()), "no pool index is computed as (unreduced hash + offset) mod n")
+		} else {
+			c.Fail("selection-complete", construct+"/index-arithmetic", p.Pos(fn.Pos()), bad[0], bad...)
+		}
+	}
+	c.Floor("selection-complete", n, 5, "strategy selections examined for index arithmetic")
+}
+
 func checkC02(c *Ctx) {
 	p := c.P
 	c.Clause("the backend handed to proxyRequest is the result of findHealthyBackend, and every non-nil result of findHealthyBackend passed IsBackendHealthy(thatBackend)")
@@ -355,6 +417,7 @@ func checkC02(c *Ctx) {
 	c.ejectorTotal()
 	c.strategyHealthGuard()
 	c.selectionComplete()
+	c.probeIndexCoversPool()
 	// "503 only when none is healthy" includes backends whose window has just expired: the strategies
 	// filter on the raw flag, so every pick is preceded by the expiry re-examination (shared with C04)
 	c.recoveryIndependent()
@@ -797,7 +860,7 @@ func checkC04(c *Ctx) {
 	c.Clause("every health flag store is mirrored to metrics with the same value inside the same critical section")
 	c.Clause("recovery is strategy-independent: raw-flag filters are backed by an expiry re-examination before the strategy is asked")
 	c.Clause("no client traffic while ejected (C02 dispatch guard and eligibility predicate)")
-	c.Clause("a failed exchange counts towards passive ejection only when its client had not gone away (test of the served request's context)")
+	c.Clause("a failed exchange counts towards passive ejection only when its client had not gone away (test of the served request's context), and that context can be ended by the client only: no middleware hands the request on with a context derived through WithTimeout / WithDeadline / WithCancel")
 	c.Clause("RemoveBackend deletes the per-name passive failure record under its lock: a backend registered again under the name starts clean")
 	c.Clause("the status the passive check sees is the last one the backend wrote; probe goroutines started in a loop own their loop variable (module Go version < 1.22); the ejection window is the configured unhealthy_timeout on every path")
 	c.Clause("a name identifies one backend: AddBackend refuses a name that is already listed before it changes anything, so the state kept per name (metrics health mirror, passive failure count) describes that backend only")
@@ -810,6 +873,7 @@ func checkC04(c *Ctx) {
 	c.ejectorTotal()
 	c.statusCaptured()
 	c.passiveThreshold()
+	c.requestContextIsClients()
 	c.backendNamesUnique()
 	c.probeEdges()
 	c.healthMirror()
